@@ -29,75 +29,7 @@
 
 #include "xmlfront_log.h"
 
-/* ------------------------------------------------------------------ pass 2: the tree of the library */
-
-static unsigned count_sibs(WBXMLTreeNode *n) { unsigned c = 0; for (; n; n = n->next) c++; return c; }
-
-static void dump_tree(WBXMLTree *t);
-
-/* recursion depth = tree depth, which the front end bounds (nesting limit) */
-static void dump_node(WBXMLTreeNode *n) {
-    WB_ULONG i;
-    WBXMLTreeNode *c;
-    switch (n->type) {
-    case WBXML_TREE_ELEMENT_NODE:
-        printf(" E");
-        if (n->name->type == WBXML_VALUE_TOKEN) {
-            printf(" t %u %u %u ", n->name->u.token->wbxmlCodePage, n->name->u.token->wbxmlToken, (unsigned) n->name->u.token->options);
-            hexs(n->name->u.token->xmlName);
-        } else {
-            printf(" l ");
-            vh_puthex(stdout, wbxml_buffer_get_cstr(n->name->u.literal), wbxml_buffer_len(n->name->u.literal));
-        }
-        if (n->attrs == NULL) printf(" -1");
-        else {
-            printf(" %u", (unsigned) wbxml_list_len(n->attrs));
-            for (i = 0; i < wbxml_list_len(n->attrs); i++) {
-                WBXMLAttribute *a = (WBXMLAttribute *) wbxml_list_get(n->attrs, i);
-                if (a->name->type == WBXML_VALUE_TOKEN) {
-                    printf(" t %u %u ", a->name->u.token->wbxmlCodePage, a->name->u.token->wbxmlToken);
-                    hexs(a->name->u.token->xmlName);
-                    printf(" ");
-                    if (a->name->u.token->xmlValue) hexs(a->name->u.token->xmlValue); else printf("~");
-                } else {
-                    printf(" l ");
-                    vh_puthex(stdout, wbxml_buffer_get_cstr(a->name->u.literal), wbxml_buffer_len(a->name->u.literal));
-                }
-                printf(" ");
-                vh_puthex(stdout, wbxml_buffer_get_cstr(a->value), wbxml_buffer_len(a->value));
-            }
-        }
-        printf(" %u", count_sibs(n->children));
-        for (c = n->children; c; c = c->next) dump_node(c);
-        if (n->content != NULL) printf(" !PENDING");
-        break;
-    case WBXML_TREE_TEXT_NODE:
-        printf(" T ");
-        vh_puthex(stdout, wbxml_buffer_get_cstr(n->content), wbxml_buffer_len(n->content));
-        if (n->children) printf(" !TEXT-WITH-CHILDREN");
-        break;
-    case WBXML_TREE_CDATA_NODE:
-        printf(" C %u", count_sibs(n->children));
-        for (c = n->children; c; c = c->next) dump_node(c);
-        break;
-    case WBXML_TREE_PI_NODE:
-        printf(" P");
-        break;
-    case WBXML_TREE_TREE_NODE:
-        printf(" R");
-        dump_tree(n->tree);
-        if (n->children) printf(" !TREE-WITH-CHILDREN");
-        break;
-    default:
-        printf(" ?");
-    }
-}
-
-static void dump_tree(WBXMLTree *t) {
-    WBXMLTreeNode *c;
-    printf(" %d %u", t->lang ? (int) t->lang->langID : 0, count_sibs(t->root));
-    for (c = t->root; c; c = c->next) dump_node(c);
-}
+#include "xmlfront_dump.h"
 
 int main(void) {
     char *line;
